@@ -41,8 +41,9 @@ def hostile(extra=None):
         if name == "builtins.int":
             arg = getattr(run, "cur_arg", None)
             if arg is not None:
-                # accepted idiom: the conversion is guarded by a truthy str.isdigit() of the same value on this path
-                g = run.facts.get(App("m:isdigit", (arg,), "bool").key())
+                # accepted idiom: the conversion is guarded by a truthy str.isdecimal() of the same value on this path
+                # (str.isdigit() is NOT enough: '\u00b2'.isdigit() is True but int('\u00b2') raises ValueError)
+                g = run.facts.get(App("m:isdecimal", (arg,), "bool").key())
                 if g is not None and g.truth is True:
                     return []
             return ["builtins.ValueError"]
@@ -50,6 +51,16 @@ def hostile(extra=None):
             return extra(name, node, run)
         return []
     return mr
+
+
+def _compare_digest(I, run, args, kwargs, node):
+    """hmac.compare_digest accepts two bytes-like objects or two ASCII-only str; a str operand built from peer data
+    raises TypeError as soon as it holds a non-ASCII character."""
+    for a in args:
+        if run.kind_of(a) == "str":
+            if run.choose(2, I.locof(node), f"compare_digest operand {a!r} is a non-ASCII str") == 1:
+                raise RaiseSig(run.alloc(HObj("builtins.TypeError", {"args": Tup(())})), node)
+    return Sym("digest_equal", "bool")
 
 
 def _is_internal(I, o):
@@ -116,13 +127,13 @@ def r1(ctx):
     def rh(I2, run, args, kwargs, node):
         run.effect("read_headers", args, node=node)
         hd = new_dict(run, {}, True, "resp_headers")
-        run.kinds[App("index", (hd, C("content-length"))).key()] = "str"
+        run.cell(hd).value_kind = "str"  # header values are text
         return Tup((isym(run, "status", 0, 999), hd, Sym("msg", "str")))
 
     st = {"_http:read_headers": rh, "_socket:send": lambda I2, run, a, k, n: C(1), "_logging:dump": lambda *a: NONE, "_logging:error": lambda *a: NONE,
           "_handshake:_get_handshake_headers": lambda I2, run, a, k, n: Tup((new_list(run, [C("GET / HTTP/1.1"), C(""), C("")]), Sym("key", "str"))),
           "_cookiejar:SimpleCookieJar.add": lambda *a: NONE,
-          "hmac.compare_digest": lambda I2, run, a, k, n: Sym("digest_equal", "bool")}
+          "hmac.compare_digest": _compare_digest}
     I2 = Interp(idx, Config(stubs=st, may_raise=hostile()))
     outs2 = ctx.count_paths(I2.explore(lambda run: I2.call(run, I2.make_fn(run, "_handshake:handshake"),
                                                           [Sym("sock", "obj"), C("ws://h/"), Sym("host", "str"), C(80), Sym("res", "str")],
@@ -130,6 +141,11 @@ def r1(ctx):
     _report(ctx, I2, outs2, "_handshake:handshake", "_handshake:handshake", "handshake()")
     # (c) WebSocket.connect: redirect handling on arbitrary response headers
     def conn(I3, run, args, kwargs, node):
+        url = args[0]
+        if url != Sym("url", "str"):
+            # the redirect target comes from the peer's Location header: parse_url refuses a malformed one with ValueError
+            if run.choose(2, I3.locof(node), "redirect Location is not a valid ws:// url") == 1:
+                raise RaiseSig(run.alloc(HObj("builtins.ValueError", {"args": Tup(())})), node)
         return Tup((new_obj(run, None, "tsock"), Tup((Sym("host", "str"), C(80), Sym("res", "str")))))
 
     def hs(I3, run, args, kwargs, node):
